@@ -136,6 +136,17 @@ func (fa *Facts) Run(visit Visitor) {
 	}
 	entry := g.Blocks[0]
 	fa.in[entry] = newState()
+	if len(fa.AssumeMinLen) > 0 && fa.F.Type.Params != nil {
+		for _, fld := range fa.F.Type.Params.List {
+			for _, id := range fld.Names {
+				if v, ok := fa.Info.Defs[id].(*types.Var); ok && fa.AssumeMinLen[v] > 0 {
+					if ln, ok, _ := fa.seqLen(id); ok && ln.Term != "" {
+						fa.in[entry].addLinLE(Lin{Off: fa.AssumeMinLen[v]}, ln, 0)
+					}
+				}
+			}
+		}
+	}
 	if fa.F.Type.Results != nil {
 		for _, fld := range fa.F.Type.Results.List {
 			for _, id := range fld.Names {
@@ -732,6 +743,10 @@ func (fa *Facts) grow(x ast.Expr, n int, st *State) {
 // minLen returns a lower bound for len(e).
 func (fa *Facts) minLen(e ast.Expr, st *State) int {
 	e = ast.Unparen(e)
+	if k, name := fa.axiomMinLen(e); k > 0 {
+		fa.noteAxiom(name)
+		return k
+	}
 	if tv, ok := fa.Info.Types[e]; ok && tv.Value != nil && tv.Value.Kind() == constant.String {
 		return len(constant.StringVal(tv.Value))
 	}
@@ -966,6 +981,10 @@ func (fa *Facts) assignLen(lhs, rhs ast.Expr, st *State) {
 				}
 				if !selfDep {
 					setLen(Lin{Term: "len(" + rs + ")", ti: rti})
+					if k, name := fa.axiomMinLen(rhs); k > 0 {
+						fa.noteAxiom(name)
+						st.addLinLE(Lin{Off: k}, lt, 0)
+					}
 					return
 				}
 			}
